@@ -181,7 +181,7 @@ theorem gen_bin_op_shapes (f bits L : Nat) (a b : List Nat) :
 /-! ## The num-traits / num-integer impls as regenerated from the source (G)
 
 `Gen/WordsFacade.lean` holds one definition per method of every `impl … Trait for Uint<BITS, LIMBS>` block of
-`src/support/num_traits.rs` and `src/support/num_integer.rs` that lies in the translated subset (51 methods; the file lists the
+`src/support/num_traits.rs` and `src/support/num_integer.rs` that lies in the translated subset (54 methods; the file lists the
 others). The theorems below state what each body is: the inherent method of the same meaning, applied to the same arguments in
 the same order (`*_forwarders`), the same with the panic of the inherent method passed on (`*_panicking_forwarders`: `none` =
 panic), with the `usize → u32` cast of the counting methods (`*_counts`), or a fixed small expression (`*_constants_and_steps`).
@@ -257,5 +257,16 @@ theorem gen_facade_constants_and_steps :
     ∧ (∀ (fuel : Nat) (BITS LIMBS : Nat) (self : List Nat), Ruint.Gen.ni_Integer_dec fuel BITS LIMBS self = (Ruint.Gen.uint_wrapping_sub fuel BITS LIMBS self (Ruint.toLimbs LIMBS (1 % 2 ^ BITS))))
     ∧ (∀ (fuel : Nat) (BITS LIMBS : Nat) (self : List Nat), Ruint.Gen.ni_Integer_inc fuel BITS LIMBS self = (Ruint.Gen.uint_wrapping_add fuel BITS LIMBS self (Ruint.toLimbs LIMBS (1 % 2 ^ BITS)))) := by
   refine ⟨?_, ?_, ?_, ?_, ?_, ?_, ?_, ?_, ?_, ?_⟩ <;> intros <;> rfl
+
+/-- `PrimInt::signed_shl` / `unsigned_shl` / `unsigned_shr`: the `Shl<usize>` / `Shr<usize>` operator impls (themselves
+    `wrapping_shl` / `wrapping_shr`, `C05.gen_int_shift_shapes`) at the amount cast to `usize`. -/
+theorem gen_facade_shift_operators :
+    (∀ (fuel : Nat) (BITS LIMBS : Nat) (self : List Nat) (n : Nat),
+        Ruint.Gen.nt_PrimInt_signed_shl fuel BITS LIMBS self n = Ruint.Gen.uint_wrapping_shl fuel BITS LIMBS self n)
+    ∧ (∀ (fuel : Nat) (BITS LIMBS : Nat) (self : List Nat) (n : Nat),
+        Ruint.Gen.nt_PrimInt_unsigned_shl fuel BITS LIMBS self n = Ruint.Gen.uint_wrapping_shl fuel BITS LIMBS self n)
+    ∧ (∀ (fuel : Nat) (BITS LIMBS : Nat) (self : List Nat) (n : Nat),
+        Ruint.Gen.nt_PrimInt_unsigned_shr fuel BITS LIMBS self n = Ruint.Gen.uint_wrapping_shr fuel BITS LIMBS self n) :=
+  ⟨fun _ _ _ _ _ => rfl, fun _ _ _ _ _ => rfl, fun _ _ _ _ _ => rfl⟩
 
 end Ruint.C20
